@@ -9,8 +9,16 @@ import (
 // Scan breaks a string into a sequence of Tokens.
 func Scan(data string, loc SourceLoc, delims []string) (tokens []Token) {
 	// Apply defaults
+	defaults := []string{"{{", "}}", "{%", "%}"}
 	if len(delims) != 4 {
-		delims = []string{"{{", "}}", "{%", "%}"}
+		delims = defaults
+	}
+	for i, d := range delims {
+		if d == "" {
+			// an empty delimiter stands for the corresponding default (see Engine.Delims)
+			delims = append([]string{}, delims...)
+			delims[i] = defaults[i]
+		}
 	}
 	tokenMatcher := formTokenMatcher(delims)
 
